@@ -26,6 +26,19 @@ CHECKS.update({
          "DESIGN.md section 3 C04"),
 })
 
+CHECKS.update({
+ "C13": ("exploration",
+         "runtime monitor: every builder called with gridded arguments after an NG Setup; output decoded by an independent X.691 decoder and by the library decoder and compared with the arguments; mandatory-IE/criticality table for the emulator's own messages",
+         "All tglib.Get* wrappers and ngapTestpacket.Build* functions (61 call sites, the two empty stubs excluded) are executed with identifier grids, NAS-PDU length corners, IPv4 corners and gNB id/name variations; class/procedure, identifiers, NAS-PDU, PDU session ids, gNB id+name, GTP address (inside the decoded transfer) and the announced PLMN must be found by both decoders; one identifier at a time is pushed out of range and must be refused.",
+         "Class/procedure and mandatory-IE tables typed in by hand from TS 38.413; the independent decoder reads the schema from ngapType tags (asserted by C03's table).",
+         "DESIGN.md section 3 C13"),
+ "C14": ("exploration",
+         "crash / allocation / slow-call / stall monitors around ngap.Decoder on hostile inputs derived from canonical encodings (prefixes, bit flips, saturated lengths and counts, splices, random strings)",
+         "About 10^6 (quick) / 2*10^7 (thorough) inputs up to 4 KiB derived from reference-encoded seeds of every message type are decoded in child processes; recover() catches panics, fatal errors kill the child and are attributed to the case by the parent, heap allocation per call is bounded by 64 MiB, a call slower than 3 s is re-run, and a case without progress for 30 s is re-run alone for 60 s with a goroutine dump as witness.",
+         "Inputs are mutation-derived, not exhaustive; the bound 64 MiB is about 5x the largest allocation the schema's own list limits cause (12 MiB observed).",
+         "DESIGN.md section 3 C14"),
+})
+
 NOT_YET = {}
 
 def main():
